@@ -19,8 +19,9 @@ from dippy.vendor.parable import parse, ParseError
 
 # Stands for "some directory we cannot know" after a directory change that is
 # not a plain `cd <literal>`: relative paths resolved against it match no
-# absolute rule
-_UNKNOWN_CWD = Path("/nonexistent/unknown-cwd")
+# absolute rule.  It is deep so that a relative path cannot climb out of it
+# with a few ".." components and land on a real absolute path.
+_UNKNOWN_CWD = Path("/nonexistent/unknown-cwd" + "/-" * 64)
 
 # Redirect targets that are always safe (no file write)
 SAFE_REDIRECT_TARGETS = frozenset({"/dev/null", "/dev/stdout", "/dev/stdin"})
